@@ -145,21 +145,20 @@ func applyJSONOperation(docBytes []byte, op json.RawMessage) (result []byte, err
 		}
 	}
 
-	if pathMsg, ok := fields["path"]; ok {
-		var path string
-
-		if e := json.Unmarshal(pathMsg, &path); e == nil {
-			if e = validateArrayIndices(docBytes, path); e != nil {
-				return nil, fmt.Errorf("jsonpatch %s operation does not apply: %w", kind, e)
-			}
-		}
-	}
-
 	if kind == "test" {
 		return applyJSONTest(docBytes, fields)
 	}
 
-	steps := []interface{}{op}
+	// the steps that are handed to the JSON patch library, with the location that each of them addresses
+	steps := []jsonPatchStep{{operation: op}}
+
+	if pathMsg, ok := fields["path"]; ok {
+		var path string
+
+		if e := json.Unmarshal(pathMsg, &path); e == nil {
+			steps[0].path = &path
+		}
+	}
 
 	if kind == "move" || kind == "copy" {
 		var from, path string
@@ -177,28 +176,50 @@ func applyJSONOperation(docBytes []byte, op json.RawMessage) (result []byte, err
 			return nil, fmt.Errorf("jsonpatch %s operation does not apply: %w", kind, e)
 		}
 
-		steps = []interface{}{map[string]interface{}{"op": "add", "path": path, "value": value}}
+		steps = []jsonPatchStep{{operation: map[string]interface{}{"op": "add", "path": path, "value": value}, path: &path}}
 
 		if kind == "move" {
 			if strings.HasPrefix(path, from+"/") {
 				return nil, fmt.Errorf("jsonpatch move operation does not apply: cannot move '%s' into its own child", from)
 			}
 
-			steps = append([]interface{}{map[string]interface{}{"op": "remove", "path": from}}, steps...)
+			remove := jsonPatchStep{operation: map[string]interface{}{"op": "remove", "path": from}, path: &from}
+			steps = append([]jsonPatchStep{remove}, steps...)
 		}
 	}
 
-	stepsBytes, err := json.Marshal(steps)
-	if err != nil {
-		return nil, err
+	for _, step := range steps {
+		// the location is checked against the document the step applies to: for the second step of a 'move' that is the
+		// document without the value at 'from'
+		if step.path != nil {
+			if e := validateArrayIndices(docBytes, *step.path); e != nil {
+				return nil, fmt.Errorf("jsonpatch %s operation does not apply: %w", kind, e)
+			}
+		}
+
+		stepBytes, e := json.Marshal([]interface{}{step.operation})
+		if e != nil {
+			return nil, e
+		}
+
+		jsonPatch, e := jsonpatch.DecodePatch(stepBytes)
+		if e != nil {
+			return nil, e
+		}
+
+		docBytes, err = jsonPatch.Apply(docBytes)
+		if err != nil {
+			return nil, err
+		}
 	}
 
-	jsonPatch, err := jsonpatch.DecodePatch(stepsBytes)
-	if err != nil {
-		return nil, err
-	}
+	return docBytes, nil
+}
 
-	return jsonPatch.Apply(docBytes)
+// jsonPatchStep is an operation for the JSON patch library together with the location it addresses.
+type jsonPatchStep struct {
+	operation interface{}
+	path      *string
 }
 
 // applyJSONTest evaluates a 'test' operation: the value at 'path' has to be equal to 'value' (RFC 6902, section 4.6).
